@@ -458,7 +458,7 @@ FailStop == ~late
 
 TypeOK == /\ run \in 1..Runs /\ phase \in {"pick", "run", "done"}
           /\ cur \in 0..Runs /\ pool \subseteq 1..Runs
-          /\ Len(stack) <= 2 * MaxDepth + 6
+          /\ Len(stack) <= 24
 
 (* every terminal behaviour, for the replay on real generated code *)
 PrintCase == (Emit /\ phase = "done") =>
